@@ -400,3 +400,11 @@ Proof.
   simpl. repeat split; repeat constructor; intros t1 t2 H1 H2; vm_compute in H1, H2;
     inversion H1; inversion H2; subst; lia.
 Qed.
+
+(* C09 finding F3 seen from this model: a node id equal to num_nodes passes the guard
+   `u > num_rows` of tsk_ibd_finder_init_samples_from_set and indexes sample_set_id out of
+   bounds (the model's checked access reports it); an id above num_nodes is rejected. *)
+Example f3_guard_oob :
+  ibd_records (mkCase 2 [0; 1] [1; 0] [] (GWithin [0; 2]) 0 None) = OOB /\
+  ibd_records (mkCase 2 [0; 1] [1; 0] [] (GWithin [0; 3]) 0 None) = Err ERR_NODE_OUT_OF_BOUNDS.
+Proof. vm_compute. split; reflexivity. Qed.
